@@ -324,7 +324,7 @@ func runC18(c *run.Ctx) {
 				for i := 0; i <= len(g); i++ {
 					judge(g, g[:i]+hf+g[i:])
 				}
-				for _, sep := range []string{" ", ",", "/", " / ", ";", ", "} {
+				for _, sep := range []string{" ", ",", "/", " / ", ";", ", ", "\n", "  ", "\t"} {
 					judge(g, hf+sep+g)
 					judge(g, g+sep+hf)
 				}
